@@ -277,6 +277,8 @@ func (n *Node) Head() string {
 			}
 			if k.Match != "" {
 				c += " " + k.Match
+			} else if k.L.Kind != "num" && k.R.Kind != "num" {
+				c += " vector-vector"
 			}
 			return "paren " + c + kinds(k)
 		case "num":
@@ -306,7 +308,7 @@ func (n *Node) Head() string {
 		switch {
 		case n.Child.Kind == "sel" && n.Child.Offset != 0:
 			return "aggregation over offset-selector: " + n.Op + g + " of " + short(n.Child)
-		case n.Child.Kind == "bin" && n.Child.Match != "":
+		case n.Child.Kind == "bin" && n.Child.L.Kind != "num" && n.Child.R.Kind != "num":
 			return "aggregation over vector-matching: " + n.Op + g + " of " + short(n.Child)
 		}
 		return "aggregation " + n.Op + " of " + short(n.Child) + g
@@ -315,8 +317,12 @@ func (n *Node) Head() string {
 		if n.Bool {
 			op += " bool"
 		}
-		if n.Match != "" {
-			return "vector-matching " + n.Match + ": " + short(n.L) + "," + short(n.R) + ":" + op
+		if n.L.Kind != "num" && n.R.Kind != "num" {
+			m := n.Match
+			if m == "" {
+				m = "default"
+			}
+			return "vector-matching " + m + ": " + short(n.L) + "," + short(n.R) + ":" + op
 		}
 		return "binary " + short(n.L) + "," + short(n.R) + ":" + op
 	}
